@@ -1,5 +1,10 @@
 """ITU-T X.690 (DER) length octets, 8.1.3 + 10.1: definite form, minimal number of octets."""
 
+# result sorts, used when a function is opaque (uninterpreted) in a proof that does not need its definition
+SIG = {'length_ok': 'bool', 'length_octets': 'int[nat]', 'length_value': 'int[nat]', 'tlv_ok': 'bool', 'tlv_size': 'int[nat]',
+       'tlv_content': 'bytes', 'explicit_ok': 'bool', 'encode_length': 'bytes'}
+
+
 
 def length_ok(b):
     """b: the bytes starting at the length octets"""
@@ -28,3 +33,37 @@ def length_value(b):
     if b[0] < 128:
         return b[0]
     return be(b[1:1 + (b[0] - 128)])
+
+
+def encode_length(n):
+    """definite form, minimal number of octets"""
+    if n < 128:
+        return bytes([n])
+    return bytes([128 + minlen(n)]) + i2osp(n, minlen(n))
+
+
+def tlv_ok(b, tag):
+    """b starts with one complete TLV whose identifier octet is `tag` (any identifier when tag is None)"""
+    if len(b) < 1:
+        return False
+    if tag is not None and b[0] != tag:
+        return False
+    if not length_ok(b[1:]):
+        return False
+    return len(b) >= 1 + length_octets(b[1:]) + length_value(b[1:])
+
+
+def tlv_size(b):
+    return 1 + length_octets(b[1:]) + length_value(b[1:])
+
+
+def tlv_content(b):
+    return b[1 + length_octets(b[1:]):1 + length_octets(b[1:]) + length_value(b[1:])]
+
+
+def explicit_ok(b, tag, inner):
+    """EXPLICIT tagging: the content of the outer TLV is exactly one TLV with identifier `inner`"""
+    if not tlv_ok(b, tag):
+        return False
+    c = tlv_content(b)
+    return tlv_ok(c, inner) and tlv_size(c) == len(c)
